@@ -33,6 +33,8 @@ type Program struct {
 	ownAll          map[*ssa.Function]bool
 	modNames        map[string]bool
 	UsedPureDynamic map[string]bool
+	constGlobals     map[*ssa.Global]*constGlobalInfo
+	constGlobalStale []string
 	whyAll          map[*ssa.Function]string
 }
 
